@@ -12,6 +12,9 @@
 (*           it wins, and the effective value is the default (id 0)           *)
 (*   lang    TRUE iff every config file also carries a per-language override *)
 (*           of the option for the probe's language                          *)
+(*   langOther  (instead of lang) every config file has a sub-section for   *)
+(*           the probe's language that sets ANOTHER key only: the option    *)
+(*           still comes from the section-wide value                        *)
 (*   spelling of the section name in every file: "hyphen" | "underscore"     *)
 (*   companion  "none" | "before" | "after": a file of ANOTHER language is   *)
 (*           linted in the same run before / after the probe, and (with      *)
@@ -37,21 +40,23 @@ CONSTANTS LookupKind,        \* "both" | "underscoreOnly" | "hyphenOnly": which 
 Files == {"yaml", "json", "pyproject"}
 Id(c) == CASE c = "yaml" -> 1 [] c = "json" -> 2 [] c = "pyproject" -> 3
 
-VARIABLES files, dash, cli, cliDefault, lang, spelling, companion, done
-vars == <<files, dash, cli, cliDefault, lang, spelling, companion, done>>
+VARIABLES files, dash, cli, cliDefault, lang, langOther, spelling, companion, done
+vars == <<files, dash, cli, cliDefault, lang, langOther, spelling, companion, done>>
 
-Init == files = {} /\ dash = "none" /\ cli = FALSE /\ cliDefault = FALSE /\ lang = FALSE /\ spelling = "hyphen" /\ companion = "none" /\ done = FALSE
-AddFile(c)   == ~done /\ c \notin files /\ files' = files \cup {c} /\ UNCHANGED <<dash, cli, cliDefault, lang, spelling, companion, done>>
-SetDash(d)   == ~done /\ dash = "none" /\ dash' = d /\ UNCHANGED <<files, cli, cliDefault, lang, spelling, companion, done>>
+Init == files = {} /\ dash = "none" /\ cli = FALSE /\ cliDefault = FALSE /\ lang = FALSE /\ langOther = FALSE /\ spelling = "hyphen" /\ companion = "none" /\ done = FALSE
+AddFile(c)   == ~done /\ c \notin files /\ files' = files \cup {c} /\ UNCHANGED <<dash, cli, cliDefault, lang, langOther, spelling, companion, done>>
+SetDash(d)   == ~done /\ dash = "none" /\ dash' = d /\ UNCHANGED <<files, cli, cliDefault, lang, langOther, spelling, companion, done>>
 SetCli       == ~done /\ ~cli /\ cli' = TRUE /\ cliDefault' \in BOOLEAN
-                /\ UNCHANGED <<files, dash, lang, spelling, companion, done>>
-SetLang      == ~done /\ ~lang /\ lang' = TRUE /\ UNCHANGED <<files, dash, cli, cliDefault, spelling, companion, done>>
+                /\ UNCHANGED <<files, dash, lang, langOther, spelling, companion, done>>
+SetLangOther == ~done /\ ~lang /\ ~langOther /\ langOther' = TRUE
+                /\ UNCHANGED <<files, dash, cli, cliDefault, lang, spelling, companion, done>>
+SetLang      == ~done /\ ~lang /\ ~langOther /\ lang' = TRUE /\ UNCHANGED <<files, dash, cli, cliDefault, langOther, spelling, companion, done>>
 Underscore   == ~done /\ spelling = "hyphen" /\ SectionHasHyphen /\ spelling' = "underscore"
-                /\ UNCHANGED <<files, dash, cli, cliDefault, lang, companion, done>>
+                /\ UNCHANGED <<files, dash, cli, cliDefault, lang, langOther, companion, done>>
 SetCompanion(k) == ~done /\ lang /\ companion = "none" /\ companion' = k
-                   /\ UNCHANGED <<files, dash, cli, cliDefault, lang, spelling, done>>
-Finish       == ~done /\ done' = TRUE /\ UNCHANGED <<files, dash, cli, cliDefault, lang, spelling, companion>>
-Next == (\E c \in Files : AddFile(c)) \/ (\E d \in {"yaml", "json"} : SetDash(d)) \/ SetCli \/ SetLang
+                   /\ UNCHANGED <<files, dash, cli, cliDefault, lang, langOther, spelling, done>>
+Finish       == ~done /\ done' = TRUE /\ UNCHANGED <<files, dash, cli, cliDefault, lang, langOther, spelling, companion>>
+Next == (\E c \in Files : AddFile(c)) \/ (\E d \in {"yaml", "json"} : SetDash(d)) \/ SetCli \/ SetLang \/ SetLangOther
         \/ Underscore \/ (\E k \in {"before", "after"} : SetCompanion(k)) \/ Finish
 Spec == Init /\ [][Next]_vars
 
@@ -88,6 +93,6 @@ DashReplacesDiscovery == (done /\ dash # "none" /\ ~cli) => EffectiveA \in {4, 1
 SetToSeq3 == <<"yaml" \in files, "json" \in files, "pyproject" \in files>>
 Emit == done => PrintT(<<"CASE", ToJson([yaml |-> "yaml" \in files, json |-> "json" \in files,
                                           pyproject |-> "pyproject" \in files, dash |-> dash, cli |-> cli, cliDefault |-> cliDefault,
-                                          lang |-> lang, spelling |-> spelling, companion |-> companion,
+                                          lang |-> lang, langOther |-> langOther, spelling |-> spelling, companion |-> companion,
                                           effective |-> EffectiveA])>>)
 =============================================================================
